@@ -1,6 +1,141 @@
-//! socket scenarios: an in-process MemcacheTcpServer on loopback, chunks written one at a time.
+//! socket scenarios: an in-process MemcacheTcpServer on loopback; the client writes the given chunks one at a
+//! time (pausing so that the server drains its receive queue between them) and collects what comes back.
+//!
+//! {"kind":"socket","item_limit":n,"connection_limit":n,"timeout_secs":n,"policy":"none"|"random","memory_limit":n,
+//!  "conns":[ {"chunks":[hex,...], "pause_ms":n, "end":"close"|"hold"|"shutdown_write", "read_ms":n} , ...],
+//!  "sequential": bool }
+use crate::{hex, make_world, unhex};
+use memcrs::cache::cache::Cache;
+use memcrs::memcache_server::memc_tcp::{MemcacheServerConfig, MemcacheTcpServer};
 use serde_json::{json, Value};
+use std::io::{Read, Write};
+use std::net::{Shutdown, TcpStream};
+use std::sync::Arc;
+use std::time::{Duration, Instant};
 
-pub fn run_socket(_sc: &Value) -> Value {
-    json!({"error": "socket scenarios not built yet"})
+fn free_port() -> u16 {
+    // ask the OS for a free port, release it, and let the server bind it (SO_REUSEADDR is set by the server)
+    let l = std::net::TcpListener::bind("127.0.0.1:0").unwrap();
+    l.local_addr().unwrap().port()
+}
+
+fn read_for(s: &mut TcpStream, ms: u64) -> (Vec<u8>, bool) {
+    let mut out = vec![];
+    let mut closed = false;
+    let deadline = Instant::now() + Duration::from_millis(ms);
+    let mut buf = [0u8; 65536];
+    loop {
+        let now = Instant::now();
+        if now >= deadline {
+            break;
+        }
+        s.set_read_timeout(Some(deadline - now)).unwrap();
+        match s.read(&mut buf) {
+            Ok(0) => {
+                closed = true;
+                break;
+            }
+            Ok(n) => out.extend_from_slice(&buf[..n]),
+            Err(e) => {
+                if e.kind() == std::io::ErrorKind::WouldBlock || e.kind() == std::io::ErrorKind::TimedOut {
+                    break;
+                }
+                closed = true;
+                break;
+            }
+        }
+    }
+    (out, closed)
+}
+
+pub fn run_socket(sc: &Value) -> Value {
+    let w = make_world(sc);
+    let cache: Arc<dyn Cache + Send + Sync> = match &w.policy {
+        Some(p) => p.clone(),
+        None => w.mem.clone(),
+    };
+    let cfg = MemcacheServerConfig::new(
+        sc["timeout_secs"].as_u64().unwrap_or(2) as u32,
+        sc["connection_limit"].as_u64().unwrap_or(16) as u32,
+        sc["item_limit"].as_u64().unwrap_or(1 << 20) as u32,
+        16,
+    );
+    let port = free_port();
+    let rt = tokio::runtime::Builder::new_multi_thread().worker_threads(2).enable_all().build().unwrap();
+    let mut server = MemcacheTcpServer::new(cfg, cache);
+    let addr: std::net::SocketAddr = format!("127.0.0.1:{}", port).parse().unwrap();
+    rt.spawn(async move {
+        let _ = server.run(addr).await;
+    });
+    // wait for the listener
+    let mut tries = 0;
+    loop {
+        match TcpStream::connect(addr) {
+            Ok(s) => {
+                drop(s);
+                break;
+            }
+            Err(_) => {
+                tries += 1;
+                if tries > 200 {
+                    return json!({"error": "server did not start"});
+                }
+                std::thread::sleep(Duration::from_millis(10));
+            }
+        }
+    }
+    std::thread::sleep(Duration::from_millis(50));
+    let conns = sc["conns"].as_array().unwrap();
+    let mut results: Vec<Value> = vec![];
+    let mut open: Vec<Option<TcpStream>> = vec![];
+    for c in conns {
+        let mut s = match TcpStream::connect(addr) {
+            Ok(s) => s,
+            Err(e) => {
+                results.push(json!({"error": e.to_string()}));
+                open.push(None);
+                continue;
+            }
+        };
+        s.set_nodelay(true).unwrap();
+        let pause = c["pause_ms"].as_u64().unwrap_or(120);
+        let mut werr: Option<String> = None;
+        for ch in c["chunks"].as_array().unwrap() {
+            let b = unhex(ch.as_str().unwrap());
+            if let Err(e) = s.write_all(&b) {
+                werr = Some(e.to_string());
+                break;
+            }
+            let _ = s.flush();
+            std::thread::sleep(Duration::from_millis(pause));
+        }
+        match c["end"].as_str().unwrap_or("hold") {
+            "shutdown_write" => {
+                let _ = s.shutdown(Shutdown::Write);
+            }
+            _ => {}
+        }
+        let (got, closed) = read_for(&mut s, c["read_ms"].as_u64().unwrap_or(400));
+        results.push(json!({"received": hex(&got), "closed_by_server": closed, "write_error": werr}));
+        if c["end"].as_str().unwrap_or("hold") == "close" {
+            drop(s);
+            open.push(None);
+        } else {
+            open.push(Some(s));
+        }
+    }
+    // optional second look at held connections (e.g. to see the idle timeout fire)
+    if let Some(ms) = sc["final_wait_ms"].as_u64() {
+        std::thread::sleep(Duration::from_millis(ms));
+        for (i, o) in open.iter_mut().enumerate() {
+            if let Some(s) = o {
+                let (got, closed) = read_for(s, 50);
+                results[i]["later_received"] = json!(hex(&got));
+                results[i]["later_closed_by_server"] = json!(closed);
+            }
+        }
+    }
+    drop(open);
+    rt.shutdown_timeout(Duration::from_millis(200));
+    json!({"conns": results})
 }
